@@ -95,10 +95,12 @@ Section W.
     if ex then exists cand amt k ks, raw = ser_vote_ex cand amt /\ junmarshal cand = Some (k :: ks) else True.
   Definition result_shape (ex : bool) (raw : str) : Prop := exists t, raw = store_result ex t.
 
+  Definition change_shape (c : str * str * str) : Prop :=
+    key_ok (fst (fst c)) /\ vote_shape (issue_is_ex (fst (fst c))) (snd (fst c)) /\
+    result_shape (issue_is_ex (fst (fst c))) (snd c).
+
   Definition upd_shape (u : sysupd) : Prop :=
-    (forall r, u_staking u = Some r -> exists w a, r = ser_staking w a) /\
-    Forall (fun kv => key_ok (fst kv) /\ vote_shape (issue_is_ex (fst kv)) (snd kv)) (u_votes u) /\
-    Forall (fun kv => key_ok (fst kv) /\ result_shape (issue_is_ex (fst kv)) (snd kv)) (u_results u).
+    (forall r, u_staking u = Some r -> exists w a, r = ser_staking w a) /\ Forall change_shape (u_changes u).
 
   Lemma vote_run_shape : forall ci key sv rv u, run_pre sv rv -> key_ok key ->
     (issue_is_ex key = true -> exists b, skipn 1 (ci_args ci) = [JStr b]) ->
@@ -108,16 +110,18 @@ Section W.
     destruct (issue_is_ex key) eqn:Hex.
     - destruct (Ha eq_refl) as [b Hb]. rewrite Hb in E.
       apply bind_ok in E. destruct E as (o & _ & E). apply bind_ok in E. destruct E as (t & _ & E).
-      injection E as Eu. subst u. unfold upd_shape. cbn [u_staking u_votes u_results]. split; [|split].
+      injection E as Eu. subst u. unfold upd_shape. cbn [u_staking u_changes]. split.
       + intros r Hr. inversion Hr; subst. eauto.
-      + constructor; [|constructor]. cbn [fst snd]. split; [exact Hk|]. rewrite Hex. unfold vote_shape, ser_vote.
-        exists (jmarshal [JStr b]), (skipn 8 (sv_staking_raw sv)), b, []. split; [reflexivity|]. apply Hjson.
-      + constructor; [|constructor]. cbn [fst snd]. split; [exact Hk|]. rewrite Hex. eexists; reflexivity.
+      + constructor; [|constructor]. unfold change_shape. cbn [fst snd]. rewrite Hex. split; [exact Hk|]. split.
+        * unfold vote_shape, ser_vote.
+          exists (jmarshal [JStr b]), (skipn 8 (sv_staking_raw sv)), b, []. split; [reflexivity|]. apply Hjson.
+        * eexists; reflexivity.
     - apply bind_ok in E. destruct E as (o & _ & E). apply bind_ok in E. destruct E as (t & _ & E).
-      injection E as Eu. subst u. unfold upd_shape. cbn [u_staking u_votes u_results]. split; [|split].
+      injection E as Eu. subst u. unfold upd_shape. cbn [u_staking u_changes]. split.
       + intros r Hr. inversion Hr; subst. eauto.
-      + constructor; [|constructor]. cbn [fst snd]. split; [exact Hk|]. rewrite Hex. exact I.
-      + constructor; [|constructor]. cbn [fst snd]. split; [exact Hk|]. rewrite Hex. eexists; reflexivity.
+      + constructor; [|constructor]. unfold change_shape. cbn [fst snd]. rewrite Hex. split; [exact Hk|]. split.
+        * exact I.
+        * eexists; reflexivity.
   Qed.
 
   Lemma refresh_run_shape : forall keys staked amount sv rv acc u, run_pre sv rv ->
@@ -131,11 +135,12 @@ Section W.
       destruct o as [[c a]|]; [|eapply IH; eauto].
       destruct (Z.leb (be_val a) staked); [eapply IH; eauto|].
       apply bind_ok in E. destruct E as (t & _ & E). eapply IH; [exact Hp|exact Hk2| |exact E].
-      destruct Hacc as (Hs & Hv & Hr). unfold upd_shape. simpl. split; [exact Hs|]. split.
-      + constructor; [|exact Hv]. simpl. split; [exact Hk1|]. unfold vote_shape, ser_vote.
+      destruct Hacc as (Hs & Hc). unfold upd_shape. cbn [u_staking u_changes]. split; [exact Hs|].
+      constructor; [|exact Hc]. unfold change_shape. cbn [fst snd]. split; [exact Hk1|]. split.
+      + unfold vote_shape, ser_vote.
         destruct (issue_is_ex key) eqn:Hex; [|exact I]. simpl in Ho. destruct Ho as (_ & k & ks & Hj).
         eexists _, _, _, _. split; [reflexivity|exact Hj].
-      + constructor; [|exact Hr]. simpl. split; [exact Hk1|]. eexists; reflexivity.
+      + eexists; reflexivity.
   Qed.
 
   Theorem system_run_shape : forall ci cx amount sv rv u, run_pre sv rv -> args_pre ci cx ->
@@ -146,17 +151,17 @@ Section W.
     - apply (vote_run_shape ci issue_bp sv rv u Hp); [left; reflexivity | intros X; discriminate X | exact E].
     - destruct Ha as (a & b & Hargs & Hk). rewrite Hargs in E.
       apply (vote_run_shape ci (to_upper a) sv rv u Hp); [right; exact Hk | intros _; rewrite Hargs; exists b; reflexivity | exact E].
-    - inversion E; subst. unfold upd_shape. simpl. split; [|split; constructor].
+    - inversion E; subst. unfold upd_shape. simpl. split; [|constructor].
       intros r Hr. inversion Hr; subst. eauto.
     - eapply (refresh_run_shape catalog _ _ sv rv _ u Hp); [| |exact E].
       + unfold catalog. constructor; [left; reflexivity|].
         unfold sys_param_ids. repeat constructor; right; reflexivity.
-      + unfold upd_shape. simpl. split; [|split; constructor]. intros r Hr. inversion Hr; subst. eauto.
+      + unfold upd_shape. simpl. split; [|constructor]. intros r Hr. inversion Hr; subst. eauto.
   Qed.
 
   (** shape + size bound = the invariants of the stored records *)
   Definition upd_small (u : sysupd) : Prop :=
-    Forall (fun kv => small (snd kv)) (u_votes u) /\ Forall (fun kv => small (snd kv)) (u_results u).
+    Forall (fun c : str * str * str => small (snd (fst c)) /\ small (snd c)) (u_changes u).
 
   Lemma staking_written_wf : forall w a, staking_wf (ser_staking w a) = true.
   Proof.
